@@ -720,7 +720,8 @@ def slot_inclusion(ctx, crate):
     reaches_sw = {f for f in crate.bodies if sw & set(crate.reachable_from([f]))}
     hw = set(hashcons_writers(crate))
     for fid in fns:
-        b = crate.bodies[fid]
+        # helpers the handler was split into (canonicalise-and-shrink step ..) are looked through
+        b = mir.inline_view(crate, crate.bodies[fid], keep=tuple(short(x).split("::")[-1] for x in hw))
         # the adder is the hashcons writer called last on every path (the one whose call is not followed by another writer)
         sites = calls_to(crate, b, hw)
         adds = [c for c in sites if c.callee.name != "remove" and not any(o is not c and o.callee.target != c.callee.target and o.bb in b.reach([c.bb]) for o in sites)]
